@@ -828,7 +828,7 @@ decimal_value_to_fixed!(c02_decimal_value_to_fixed_16, 16);
 
 //@ harness: c02_decimal_value_to_fixed_18
 //@   props: C02, C01
-//@   tier: thorough
+//@   tier: quick
 //@   kind: complete
 //@   fn: ser::serializer::decimal::serialize (fixed(18): larger than the 16-byte mantissa buffer)
 //@   domain: every sign x every 96-bit mantissa at scale 0
